@@ -30,6 +30,28 @@
 #include "StringDictionaryRPHTFC.h"
 #include "iterators/IteratorDictStringRPHTFC.h"
 
+/** Copies len bytes of an encoded header into dst without reading beyond the
+    end of the text (the missing bytes are zeroed). */
+static inline void copyHeader(uchar *dst, const uchar *header, const uchar *end,
+                              uint len) {
+  uint available = (uint)(end - header);
+  if (available > len)
+    available = len;
+  memcpy(dst, header, available);
+  memset(dst + available, 0, len - available);
+}
+
+/** Compares len bytes of an encoded header with str without reading beyond
+    the end of the text (a header cut by the end of the text is smaller). */
+static inline int compareHeader(const uchar *header, const uchar *end,
+                                const uchar *str, uint len) {
+  uint available = (uint)(end - header);
+  if (available >= len)
+    return memcmp(header, str, len);
+  int cmp = memcmp(header, str, available);
+  return (cmp != 0) ? cmp : -1;
+}
+
 StringDictionaryRPHTFC::StringDictionaryRPHTFC() {
   this->type = RPHTFC;
   this->elements = 0;
@@ -635,7 +657,7 @@ bool StringDictionaryRPHTFC::locateBucket(uchar *str, uint strLen,
     center = (left + right) / 2;
     header = getHeader(center);
 
-    cmp = memcmp(header, str, strLen);
+    cmp = compareHeader(header, textStrings + bytesStrings, str, strLen);
     // The string is in any preceding bucket
     if (cmp > 0)
       right = center - 1;
@@ -672,7 +694,7 @@ void StringDictionaryRPHTFC::locateBoundaryBuckets(uchar *str, uint strLen,
   while (*left <= *right) {
     center = (*left + *right) / 2;
 
-    memcpy(header, getHeader(center), strLen);
+    copyHeader(header, getHeader(center), textStrings + bytesStrings, strLen);
     if (offset != 0)
       header[strLen - 1] = header[strLen - 1] & cmask;
     cmp = memcmp(header, str, strLen);
@@ -706,7 +728,7 @@ void StringDictionaryRPHTFC::locateBoundaryBuckets(uchar *str, uint strLen,
     while (ll <= lr) {
       lc = (ll + lr) / 2;
 
-      memcpy(header, getHeader(lc), strLen);
+      copyHeader(header, getHeader(lc), textStrings + bytesStrings, strLen);
       if (offset != 0)
         header[strLen - 1] = header[strLen - 1] & cmask;
       cmp = memcmp(header, str, strLen);
@@ -730,7 +752,7 @@ void StringDictionaryRPHTFC::locateBoundaryBuckets(uchar *str, uint strLen,
     while (rl < (rr - 1)) {
       rc = (rl + rr) / 2;
 
-      memcpy(header, getHeader(rc), strLen);
+      copyHeader(header, getHeader(rc), textStrings + bytesStrings, strLen);
       if (offset != 0)
         header[strLen - 1] = header[strLen - 1] & cmask;
       cmp = memcmp(header, str, strLen);
